@@ -38,18 +38,21 @@
 (* branches selected by the constant Fixed (name present = repaired behaviour). *)
 EXTENDS Integers, Sequences, FiniteSets, TLC
 
-CONSTANTS Hosts,       \* host numbers 1..N; 1 is the contact point
-          Ring0,       \* members when the cluster connects (contains 1)
-          Targets,     \* schema-change targets (strings): "ks" a keyspace, "ks.t" a table, "ks.f(int)" a function
-          FuncTargets, \* the targets among them that are functions / aggregates (the event carries a signature descriptor)
-          Kinds,       \* spontaneous events explored: subset of {"NEW","MOVED","REMOVED","UP","DOWN","SCHEMA"}
-          TopoOn,      \* topology_event_refresh_window >= 0
-          SchemaOn,    \* schema_event_refresh_window >= 0
-          MaxEvents,   \* spontaneous pushed events per behaviour
-          MaxRing,     \* membership changes per behaviour
-          MaxFaults,   \* node stops/starts accepting, control connection deaths
-          MaxBeats,    \* heartbeat notices
+CONSTANTS Scenarios,   \* the configurations explored in one run: set of records (fields below); a behaviour keeps the one it starts with
           Fixed        \* deviations repaired: subset of Deviations
+
+VARIABLE sc            \* the scenario of this behaviour (never changes)
+Hosts       == sc.hosts     \* host numbers 1..N; 1 is the contact point
+Ring0       == sc.ring0     \* members when the cluster connects (contains 1)
+Targets     == sc.targets   \* schema-change targets (strings): "ks" a keyspace, "ks.t" a table, "ks.f(int)" a function
+FuncTargets == sc.func      \* the targets among them that are functions / aggregates (the event carries a signature descriptor)
+Kinds       == sc.kinds     \* spontaneous events explored: subset of {"NEW","MOVED","REMOVED","UP","DOWN","SCHEMA"}
+TopoOn      == sc.topo      \* topology_event_refresh_window >= 0
+SchemaOn    == sc.schema    \* schema_event_refresh_window >= 0
+MaxEvents   == sc.ev        \* spontaneous pushed events per behaviour
+MaxRing     == sc.nring     \* membership changes per behaviour
+MaxFaults   == sc.faults    \* node stops/starts accepting, control connection deaths
+MaxBeats    == sc.beats     \* heartbeat notices
 
 Deviations == {"D_handler_close", "D_lost_refresh", "D_func_dedup"}
 
@@ -61,7 +64,7 @@ VARIABLES cs,          \* driver state, one record (fields below)
           phase,       \* 0 running, 1 cluster.is_shutdown + scheduler shut, 2 control connection shut, 3 executor shut
           frozen,      \* history: [sched, known, up] as of ShutA / ShutB
           act          \* the last action
-vars == <<cs, ring, ever, alive, budget, phase, frozen, act>>
+vars == <<sc, cs, ring, ever, alive, budget, phase, frozen, act>>
 
 known   == cs.known     \* Metadata._hosts in insertion order: sequence of hosts
 up      == cs.up        \* [Hosts -> {"T","F","N"}]  Host.is_up of the host's Host object
@@ -298,6 +301,7 @@ Wanted(st, ev) ==
 Dup(ev) == Wanted(cs, ev) \in DOMAIN sched
 
 Init ==
+    /\ sc \in Scenarios
     /\ cs = [known |-> SortedSeq(Ring0), up |-> [h \in Hosts |-> IF h \in Ring0 THEN "T" ELSE "N"],
              lbp |-> Ring0, hrec |-> {}, ctl |-> [h |-> 1, st |-> "open"], chand |-> FALSE,
              exec |-> EmptyBag, sched |-> EmptyBag, rcs |-> EmptyBag, em |-> <<>>, nrem |-> [h \in Hosts |-> 0]]
@@ -312,7 +316,7 @@ Exec(t) ==
     /\ t \in DOMAIN exec
     /\ Commit(RunTask([Cur EXCEPT !.exec = BagDel(exec, t)], t))
     /\ act' = A("Exec", t, NoR, "", 0, "", 0, FALSE, FALSE)
-    /\ UNCHANGED <<ring, ever, alive, budget, phase, frozen>>
+    /\ UNCHANGED <<sc, ring, ever, alive, budget, phase, frozen>>
 
 (* the scheduler thread hands a due entry to the executor *)
 Fire(e) ==
@@ -320,14 +324,14 @@ Fire(e) ==
     /\ ~SchedShut
     /\ Commit(Submit([Cur EXCEPT !.sched = BagDel(sched, e)], e))
     /\ act' = A("Fire", e, NoR, "", 0, "", 0, FALSE, FALSE)
-    /\ UNCHANGED <<ring, ever, alive, budget, phase, frozen>>
+    /\ UNCHANGED <<sc, ring, ever, alive, budget, phase, frozen>>
 
 (* a control reconnection in flight takes its next step *)
 RcStep(r) ==
     /\ r \in DOMAIN rcs
     /\ Commit(RunStep([Cur EXCEPT !.rcs = BagDel(rcs, r)], r))
     /\ act' = A("RcStep", NoT, r, StepKind(r), 0, "", 0, FALSE, FALSE)
-    /\ UNCHANGED <<ring, ever, alive, budget, phase, frozen>>
+    /\ UNCHANGED <<sc, ring, ever, alive, budget, phase, frozen>>
 
 (* a node pushes an event on an open, registered connection c of the driver *)
 Push(c, kind, h, x) ==
@@ -338,7 +342,7 @@ Push(c, kind, h, x) ==
     /\ budget' = [budget EXCEPT !.ev = @ + 1]
     /\ Commit(Deliver(Cur, [kind |-> kind, h |-> h, x |-> x]))
     /\ act' = A("Push", NoT, NoR, kind, h, x, c, h \in Known(cs), Dup([kind |-> kind, h |-> h, x |-> x]))
-    /\ UNCHANGED <<ring, ever, alive, phase, frozen>>
+    /\ UNCHANGED <<sc, ring, ever, alive, phase, frozen>>
 
 (* a node joins: every open registered connection gets NEW_NODE *)
 RingAdd(h) ==
@@ -348,7 +352,7 @@ RingAdd(h) ==
     /\ budget' = [budget EXCEPT !.ring = @ + 1]
     /\ Commit(IF OpenConns(cs) = {} THEN Cur ELSE Deliver(Cur, [kind |-> "NEW", h |-> h, x |-> ""]))
     /\ act' = A("RingAdd", NoT, NoR, "NEW", h, "", 0, OpenConns(cs) # {}, Dup([kind |-> "NEW", h |-> h, x |-> ""]))
-    /\ UNCHANGED <<phase, frozen>>
+    /\ UNCHANGED <<sc, phase, frozen>>
 
 (* a node leaves for good (the driver has no open connection to it): REMOVED_NODE on every open registered connection *)
 RingRemove(h) ==
@@ -359,7 +363,7 @@ RingRemove(h) ==
     /\ budget' = [budget EXCEPT !.ring = @ + 1]
     /\ Commit(IF OpenConns(cs) = {} THEN Cur ELSE Deliver(Cur, [kind |-> "REMOVED", h |-> h, x |-> ""]))
     /\ act' = A("RingRemove", NoT, NoR, "REMOVED", h, "", 0, OpenConns(cs) # {}, Dup([kind |-> "REMOVED", h |-> h, x |-> ""]))
-    /\ UNCHANGED <<ever, phase, frozen>>
+    /\ UNCHANGED <<sc, ever, phase, frozen>>
 
 (* a member stops / starts accepting new connections *)
 NodeMode(h) ==
@@ -369,7 +373,7 @@ NodeMode(h) ==
     /\ budget' = [budget EXCEPT !.fault = @ + 1]
     /\ Commit(Cur)
     /\ act' = A("NodeMode", NoT, NoR, IF h \in alive THEN "refuse" ELSE "accept", h, "", 0, FALSE, FALSE)
-    /\ UNCHANGED <<ring, ever, phase, frozen>>
+    /\ UNCHANGED <<sc, ring, ever, phase, frozen>>
 
 (* the installed control connection breaks (socket error: defunct); nobody is told *)
 ConnDie ==
@@ -378,7 +382,7 @@ ConnDie ==
     /\ budget' = [budget EXCEPT !.fault = @ + 1]
     /\ Commit([Cur EXCEPT !.ctl.st = "defunct"])
     /\ act' = A("ConnDie", NoT, NoR, "", 0, "", ctl.h, FALSE, FALSE)
-    /\ UNCHANGED <<ring, ever, alive, phase, frozen>>
+    /\ UNCHANGED <<sc, ring, ever, alive, phase, frozen>>
 
 (* ConnectionHeartbeat finds the control connection defunct or closed: ControlConnection.return_connection *)
 Heartbeat ==
@@ -388,7 +392,7 @@ Heartbeat ==
     /\ budget' = [budget EXCEPT !.beat = @ + 1]
     /\ Commit(CcReconnect(Cur))
     /\ act' = A("Heartbeat", NoT, NoR, "", 0, "", ctl.h, FALSE, FALSE)
-    /\ UNCHANGED <<ring, ever, alive, phase, frozen>>
+    /\ UNCHANGED <<sc, ring, ever, alive, phase, frozen>>
 
 (* Cluster.shutdown in the three stretches between which other threads get to run *)
 ShutA ==                       \* is_shutdown = True; scheduler.shutdown()
@@ -396,18 +400,18 @@ ShutA ==                       \* is_shutdown = True; scheduler.shutdown()
     /\ frozen' = [frozen EXCEPT !.sched = sched]
     /\ Commit(Cur)
     /\ act' = A("ShutA", NoT, NoR, "", 0, "", 0, FALSE, FALSE)
-    /\ UNCHANGED <<ring, ever, alive, budget>>
+    /\ UNCHANGED <<sc, ring, ever, alive, budget>>
 ShutB ==                       \* control_connection.shutdown(): handler cancelled, _is_shutdown, connection closed
     /\ phase = 1 /\ phase' = 2
     /\ Commit([CancelCtl(Cur) EXCEPT !.ctl = [h |-> 0, st |-> "none"]])
     /\ frozen' = [frozen EXCEPT !.known = Known(cs), !.up = up]
     /\ act' = A("ShutB", NoT, NoR, "", 0, "", 0, FALSE, FALSE)
-    /\ UNCHANGED <<ring, ever, alive, budget>>
+    /\ UNCHANGED <<sc, ring, ever, alive, budget>>
 ShutC ==                       \* executor.shutdown(): what is queued or running still finishes
     /\ phase = 2 /\ phase' = 3
     /\ Commit(Cur)
     /\ act' = A("ShutC", NoT, NoR, "", 0, "", 0, FALSE, FALSE)
-    /\ UNCHANGED <<ring, ever, alive, budget, frozen>>
+    /\ UNCHANGED <<sc, ring, ever, alive, budget, frozen>>
 
 ExecAny == \E t \in DOMAIN exec : Exec(t)
 FireAny == \E e \in DOMAIN sched : Fire(e)
